@@ -2,14 +2,14 @@
     (Partial proof: the kernel is the model of KernelState.v, the Go scheduler an oracle; see LoaderProofs.v.)
 
     [kload], [ksupported] are LoadFilter and Supported of the CURRENT tree: the regenerated skeletons of
-    seccomp_linux.go interpreted over the kernel model (LoaderInst.v, compiled on this run). A history is a
+    seccomp_linux.go interpreted over the kernel model (LoaderInst.v, SupportedInst.v, compiled on this run). A history is a
     list of operations [hop] (loads with any filter / flags from any thread, pinned or not, under any scheduler
     oracle; Supported probes; thread creation and exit; dropping privilege; blocking and waking), folded over
     the kernel state by [run_hist]. Every theorem below quantifies over EVERY history prefix [pre]. *)
 From Coq Require Import List NArith Bool String.
 From Seccomp Require Import Machine Raw Result KernelCheck KernelState Skeleton Loader LoaderProofs.
 From Gen Require Import GenSkeletons GenConsts.
-From Props Require Import LoaderInst.
+From Props Require Import LoaderInst SupportedInst.
 Import ListNotations.
 Close Scope string_scope.
 Open Scope list_scope.
